@@ -17,12 +17,13 @@ def mk_dims(W, letters, lo=1):
     return {l: W.dim(l, lo=lo) for l in letters}
 
 
-def operands(W, sk):
+def operands(W, sk, int_ok=False):
+    """int_ok: both arrays are only read by the unit (they may be integer-typed on the concrete 'integer' runs)"""
     D = mk_dims(W, sorted(set(sk["x"]) | set(sk["y"])))
-    x = W.array("x", [D[l] for l in sk["x"]])
+    x = W.array("x", [D[l] for l in sk["x"]], int_ok=int_ok)
     if sk.get("alias"):
         return D, x, x  # both operands are the very same object
-    y = W.array("y", [D[l] for l in sk["y"]])
+    y = W.array("y", [D[l] for l in sk["y"]], int_ok=int_ok)
     return D, x, y
 
 
@@ -109,7 +110,7 @@ def sk_binop(tier):
     note="x/y is claimed where the divisor entry is non-zero (the code multiplies by the reciprocal)",
 )
 def u_binop(W, sk):
-    D, x, y = operands(W, sk)
+    D, x, y = operands(W, sk, int_ok=True)
     snaps = SL.snapshot(W, [x, y])
     op = sk["op"]
     if op in INTERSECT_OPS:
@@ -154,7 +155,7 @@ def sk_rank(tier, quick=3, thorough=4):
 )
 def u_scalar(W, sk):
     D = mk_dims(W, sk["x"])
-    x = W.array("x", [D[l] for l in sk["x"]])
+    x = W.array("x", [D[l] for l in sk["x"]], int_ok=True)
     c = W.number("c")
     X = SL.lab(W, x)
     snaps = SL.snapshot(W, [x])
@@ -309,7 +310,7 @@ def sk_sum_to(tier):
 )
 def u_sum_to(W, sk):
     D = mk_dims(W, sk["x"])
-    x = W.array("x", [D[l] for l in sk["x"]])
+    x = W.array("x", [D[l] for l in sk["x"]], int_ok=True)
     X = SL.lab(W, x)
     snaps = SL.snapshot(W, [x])
     keys = naming([D[l] for l in sk["K"]], sk["style"])
@@ -359,7 +360,7 @@ def sk_sum_over(tier):
 )
 def u_sum_over(W, sk):
     D = mk_dims(W, sk["x"])
-    x = W.array("x", [D[l] for l in sk["x"]])
+    x = W.array("x", [D[l] for l in sk["x"]], int_ok=True)
     X = SL.lab(W, x)
     snaps = SL.snapshot(W, [x])
     keys = naming([D[l] for l in sk["J"]], sk["style"])
@@ -396,7 +397,7 @@ def sk_cast(tier):
 )
 def u_cast(W, sk):
     D = mk_dims(W, sorted(set(sk["T"]) | set(sk["x"])))
-    x = W.array("x", [D[l] for l in sk["x"]])
+    x = W.array("x", [D[l] for l in sk["x"]], int_ok=True)
     from .dimensions import mk_set
 
     T = mk_set(W, [D[l] for l in sk["T"]])
@@ -448,7 +449,7 @@ def sk_shares(tier):
 )
 def u_shares(W, sk):
     D = mk_dims(W, sk["x"])
-    x = W.array("x", [D[l] for l in sk["x"]])
+    x = W.array("x", [D[l] for l in sk["x"]], int_ok=True)
     X = SL.lab(W, x)
     snaps = SL.snapshot(W, [x])
     J = tuple(sk["J"])
@@ -501,7 +502,7 @@ def sk_cumsum(tier):
 )
 def u_cumsum(W, sk):
     D = mk_dims(W, sk["x"])
-    x = W.array("x", [D[l] for l in sk["x"]])
+    x = W.array("x", [D[l] for l in sk["x"]], int_ok=True)
     X = SL.lab(W, x)
     fz = SL.Lab(W, X.letters, X.dims, (lambda vals, L: (lambda asg: W.elem(vals, tuple(asg[l] for l in L))))(x.values.copy(), X.letters))
     l = sk["x"][sk["axis"]]
